@@ -283,6 +283,18 @@ class StoredPattern:  # pylint: disable=too-many-instance-attributes
     """Human-readable description of the detected pattern."""
 
 
+def _storable(params: tuple) -> tuple:
+    """Make text parameters storable: SQLite text is UTF-8 and cannot hold lone surrogates.
+
+    A string literal such as "\\udc80" (or a file name with an undecodable byte) would make
+    the INSERT raise and the whole file's analysis be dropped.
+    """
+    return tuple(
+        p.encode("utf-8", "backslashreplace").decode("utf-8") if isinstance(p, str) else p
+        for p in params
+    )
+
+
 class StringlyTypedStorage:  # thailint: ignore[srp]
     """SQLite-backed storage for stringly-typed pattern detection.
 
@@ -343,7 +355,7 @@ class StringlyTypedStorage:  # thailint: ignore[srp]
                    (file_path, line_number, column_number, variable_name,
                     string_set_hash, string_values, pattern_type, details)
                    VALUES (?, ?, ?, ?, ?, ?, ?, ?)""",
-                (
+                _storable((
                     str(pattern.file_path),
                     pattern.line_number,
                     pattern.column,
@@ -352,7 +364,7 @@ class StringlyTypedStorage:  # thailint: ignore[srp]
                     json.dumps(pattern.string_values),
                     pattern.pattern_type,
                     pattern.details,
-                ),
+                )),
             )
 
         self._db.commit()
@@ -432,14 +444,14 @@ class StringlyTypedStorage:  # thailint: ignore[srp]
                    (file_path, line_number, column_number, function_name,
                     param_index, string_value)
                    VALUES (?, ?, ?, ?, ?, ?)""",
-                (
+                _storable((
                     str(call.file_path),
                     call.line_number,
                     call.column,
                     call.function_name,
                     call.param_index,
                     call.string_value,
-                ),
+                )),
             )
 
         self._db.commit()
@@ -533,14 +545,14 @@ class StringlyTypedStorage:  # thailint: ignore[srp]
                    (file_path, line_number, column_number, variable_name,
                     compared_value, operator)
                    VALUES (?, ?, ?, ?, ?, ?)""",
-                (
+                _storable((
                     str(comparison.file_path),
                     comparison.line_number,
                     comparison.column,
                     comparison.variable_name,
                     comparison.compared_value,
                     comparison.operator,
-                ),
+                )),
             )
 
         self._db.commit()
